@@ -37,6 +37,7 @@
 #include "mx_surgeon.h"
 #include <sys/stat.h>
 #include <time.h>
+int __real_clock_gettime(clockid_t id, struct timespec *ts);
 
 #ifndef C08_STANDALONE
 size_t LLVMFuzzerMutate(uint8_t *Data, size_t Size, size_t MaxSize);
@@ -146,6 +147,69 @@ static int g_verbose; static int g_tuplefd = -1;
 static unsigned long g_runs, g_dead, g_hsdone, g_app, g_alerts_in, g_sealed_recs, g_raw_recs, g_apicalls, g_continued;
 static unsigned long g_hs_hist[64];
 static char g_desc[256];
+
+/* ------------------------------------------- memoised public-key arithmetic --- */
+/* Every execution repeats the honest prefix with pinned entropy, i.e. the same scalar multiplications
+ * and modular exponentiations again and again; under ASan+UBSan+coverage instrumentation they cost
+ * 30-200 ms per handshake.  eccMulmod() and pstm_exptmod() are pure functions of their operands, so
+ * they are interposed (-Wl,--wrap) and memoised on the complete operand values: the first call with
+ * given operands (including every attacker-supplied point / ciphertext) runs the real code, later
+ * identical calls copy the recorded result into the caller's output with pstm_copy. */
+int32_t __real_eccMulmod(psPool_t *pool, const pstm_int *k, const psEccPoint_t *G, psEccPoint_t *R, pstm_int *modulus, uint8_t map, pstm_int *tmp_int);
+int32_t __real_pstm_exptmod(psPool_t *pool, const pstm_int *G, const pstm_int *X, const pstm_int *P, pstm_int *Y);
+#define MEMO_N 4096
+typedef struct { uint64_t h1, h2; int used, n; pstm_int v[3]; } memo_t;
+static memo_t g_memo[MEMO_N]; static int g_memo_n; static unsigned long g_memo_hit, g_memo_miss;
+static int g_memo_off;
+static void memo_mix(uint64_t *h1, uint64_t *h2, const pstm_int *a)
+{
+    if (!a) { *h1 = (*h1 ^ 0xfe) * 1099511628211ULL; *h2 = (*h2 + 0x9e3779b97f4a7c15ULL) * 0xff51afd7ed558ccdULL; return; }
+    uint64_t t = ((uint64_t) a->used << 8) | a->sign; *h1 = (*h1 ^ t) * 1099511628211ULL; *h2 = (*h2 ^ (t + 0x51)) * 0xc4ceb9fe1a85ec53ULL; *h2 ^= *h2 >> 29;
+    for (int i = 0; i < a->used; i++) { uint64_t d = (uint64_t) a->dp[i]; *h1 = (*h1 ^ d) * 1099511628211ULL; *h1 ^= *h1 >> 31; *h2 = (*h2 + d) * 0xff51afd7ed558ccdULL; *h2 ^= *h2 >> 33; }
+}
+static memo_t *memo_find(uint64_t h1, uint64_t h2, int *slot)
+{
+    size_t j = h1 & (MEMO_N - 1);
+    for (int probe = 0; probe < 64; probe++, j = (j + 1) & (MEMO_N - 1)) {
+        if (!g_memo[j].used) { *slot = (int) j; return NULL; }
+        if (g_memo[j].h1 == h1 && g_memo[j].h2 == h2) return &g_memo[j];
+    }
+    *slot = -1; return NULL;
+}
+int32_t __wrap_eccMulmod(psPool_t *pool, const pstm_int *k, const psEccPoint_t *G, psEccPoint_t *R, pstm_int *modulus, uint8_t map, pstm_int *tmp_int)
+{
+    if (g_memo_off || !k || !G || !R || !modulus) return __real_eccMulmod(pool, k, G, R, modulus, map, tmp_int);
+    uint64_t h1 = 1469598103934665603ULL ^ map, h2 = 0x1234567 + map; int slot = -1;
+    memo_mix(&h1, &h2, k); memo_mix(&h1, &h2, &G->x); memo_mix(&h1, &h2, &G->y); memo_mix(&h1, &h2, &G->z); memo_mix(&h1, &h2, modulus); memo_mix(&h1, &h2, tmp_int);
+    memo_t *m = memo_find(h1, h2, &slot);
+    if (m && m->n == 3) {
+        g_memo_hit++;
+        if (pstm_copy(&m->v[0], &R->x) < 0 || pstm_copy(&m->v[1], &R->y) < 0 || pstm_copy(&m->v[2], &R->z) < 0) return PS_MEM_FAIL;
+        return PS_SUCCESS;
+    }
+    g_memo_miss++;
+    int32_t rc = __real_eccMulmod(pool, k, G, R, modulus, map, tmp_int);
+    if (rc == PS_SUCCESS && slot >= 0 && g_memo_n < MEMO_N / 2) {
+        m = &g_memo[slot];
+        if (pstm_init_copy(NULL, &m->v[0], &R->x, 0) == 0 && pstm_init_copy(NULL, &m->v[1], &R->y, 0) == 0 && pstm_init_copy(NULL, &m->v[2], &R->z, 0) == 0) { m->h1 = h1; m->h2 = h2; m->n = 3; m->used = 1; g_memo_n++; }
+    }
+    return rc;
+}
+int32_t __wrap_pstm_exptmod(psPool_t *pool, const pstm_int *G, const pstm_int *X, const pstm_int *P, pstm_int *Y)
+{
+    if (g_memo_off || !G || !X || !P || !Y) return __real_pstm_exptmod(pool, G, X, P, Y);
+    uint64_t h1 = 1469598103934665603ULL ^ 0xe7, h2 = 0x7654321; int slot = -1;
+    memo_mix(&h1, &h2, G); memo_mix(&h1, &h2, X); memo_mix(&h1, &h2, P);
+    memo_t *m = memo_find(h1, h2, &slot);
+    if (m && m->n == 1) { g_memo_hit++; return pstm_copy(&m->v[0], Y) < 0 ? PS_MEM_FAIL : PS_SUCCESS; }
+    g_memo_miss++;
+    int32_t rc = __real_pstm_exptmod(pool, G, X, P, Y);
+    if (rc == PS_SUCCESS && slot >= 0 && g_memo_n < MEMO_N / 2) {
+        m = &g_memo[slot];
+        if (pstm_init_copy(NULL, &m->v[0], Y, 0) == 0) { m->h1 = h1; m->h2 = h2; m->n = 1; m->used = 1; g_memo_n++; }
+    }
+    return rc;
+}
 
 /* ---------------------------------------------------------------- oracles --- */
 static void c08_fail(const char *key, const char *fmt, ...)
@@ -642,6 +706,7 @@ static void print_stats(void)
 {
     fprintf(stderr, "C08-STATS: target=%s runs=%lu dead=%lu hsdone=%lu appdata=%lu alerts_in=%lu sealed_recs=%lu raw_recs=%lu apicalls=%lu continued=%lu tuples=%lu\n",
             g_t ? g_t->name : "?", g_runs, g_dead, g_hsdone, g_app, g_alerts_in, g_sealed_recs, g_raw_recs, g_apicalls, g_continued, (unsigned long) g_tn);
+    fprintf(stderr, "C08-MEMO: hits=%lu misses=%lu entries=%d\n", g_memo_hit, g_memo_miss, g_memo_n);
     fprintf(stderr, "C08-HSHIST:");
     for (int i = 0; i < 64; i++) if (g_hs_hist[i]) fprintf(stderr, " %d=%lu", i, g_hs_hist[i]);
     fprintf(stderr, "\n");
@@ -657,6 +722,7 @@ static void c08_setup(const char *tname)
 {
     if (tname && !strcmp(tname, "list")) { for (int i = 0; i < NTARGETS; i++) printf("%s %d\n", g_targets[i].name, g_targets[i].cost); exit(0); }
     vf_seed = 0xC08;
+    g_memo_off = getenv("C08_NOMEMO") != NULL;
     mx_global_init();
     mx_keys_load();
     if (getenv("C08_GEN")) { gen_corpus(getenv("C08_GEN")); exit(0); }
@@ -848,9 +914,9 @@ static void selfcheck(void)
         }
         fprintf(stderr, "C08-SELFCHECK: %s lanes=%d", g_t->name, g_nlanes);
         for (int i = 0; i < g_nlanes; i++) {
-            struct timespec a, b; clock_gettime(CLOCK_MONOTONIC, &a);
+            struct timespec a, b; __real_clock_gettime(CLOCK_MONOTONIC, &a);
             for (int rep = 0; rep < 3; rep++) lane_probe(&g_lanes[i], i, NULL);
-            clock_gettime(CLOCK_MONOTONIC, &b);
+            __real_clock_gettime(CLOCK_MONOTONIC, &b);
             fprintf(stderr, " %s:%d(%.1fms)", g_lanes[i].scn->name, g_lanes[i].ncuts, ((b.tv_sec - a.tv_sec) * 1e3 + (b.tv_nsec - a.tv_nsec) / 1e6) / 3);
         }
         fprintf(stderr, "\n");
